@@ -295,7 +295,7 @@ def run(ctx):
             open(os.path.join(ctx._specdir(), "VM" + cfgname), "w").write(re.sub(r"MaxHist = \d+", "MaxHist = %d" % d, src))
             hists += gen_schedules(ctx, "VM" + cfgname, 2 * num, d, ctx.seed * 1000 + d + 1)
     ctx.rng.shuffle(hists)
-    cap = 360 if quick else 6000
+    cap = 360 if quick else 2000
     hists = hists[:cap]
     keys = ["k1", "k2", "k3"]
     scheds = []
@@ -316,7 +316,7 @@ def run(ctx):
         ncover = len(cover)
         hists = cover + hists[: (100 if quick else cap)]
     for i, h in enumerate(hists):
-        reps = [cfgs[(i + ctx.seed) % len(cfgs)]] if quick else cfgs
+        reps = [cfgs[(i + ctx.seed) % len(cfgs)]] if quick else [cfgs[(i + j * 3 + ctx.seed) % len(cfgs)] for j in range(3)]
         if quick and i < ncover:  # every layout at least once inline and once through the value log
             reps = [cfgs[(i + ctx.seed) % 2 + (0 if pid != "C08" else 0)], cfgs[(2 + (i + ctx.seed) % max(1, len(cfgs) - 2)) % len(cfgs)]]
         for ci, c in enumerate(reps):
